@@ -190,3 +190,44 @@ def length_domain_rows(W, pf, construct):
                    f"the writer rejects lengths above {mx} although {what} carries up to {cap}: a well-typed value of that length cannot be encoded",
                    W.codec_loc({"fn": wd.get("_codec", ":"), "line": wd.get("_line", 0)}))
         wd = wd.get("item") or wd.get("inner")
+
+
+def time_writer_domain_rows(ctx):
+    """The duration writers analysed on a plain datetime.timedelta (what the sibling reader returns, not the narrower annotated type):
+    every explicit guard must admit every value the reader can produce.  Rows: (ok, construct, stmt, message, file, line)."""
+    import datetime as _dt
+    from ..grammar import eval_int_term
+    from ..interp_base import Raised, Limit
+    from ..core import AnalysisError
+    from ..values import LibClass, FuncV
+    I, P = ctx.interp, ctx.plans
+    wm = I.module("kio.serial.writers")
+    td = LibClass.get("datetime.timedelta")
+    ms = lambda n: _dt.timedelta(milliseconds=n)
+    points = {"write_timedelta_i32": [ms(-(2 ** 31)), ms(-1), ms(0), ms(1), ms(2 ** 31 - 1)],
+              "write_timedelta_i64": [_dt.timedelta.min, _dt.timedelta.min + _dt.timedelta(days=1), ms(-1), ms(0), ms(2 ** 53 + 1),
+                                      _dt.timedelta.max - _dt.timedelta(days=1), _dt.timedelta.max - _dt.timedelta(microseconds=_dt.timedelta.max.microseconds % 1000 + 999000)]}
+    rows = []
+    for name, pts in points.items():
+        f = wm.env.vars.get(name)
+        if not isinstance(f, FuncV):
+            raise AnalysisError(f"anchor vanished: kio.serial.writers.{name}")
+        try:
+            d = P.D.writer_desc(f, td)
+        except (Raised, Limit) as e:
+            raise AnalysisError(f"{name} not understood on a plain timedelta: {e}")
+        if d.get("k") != "scalar":
+            rows.append((None, f"kio.serial.writers:{name}", "", d.get("reason", "not a scalar writer"), "src/kio/serial/writers.py", f.node.lineno))
+            continue
+        bad = []
+        for g in d.get("guards") or []:
+            for v in pts:
+                r = eval_int_term(g["cond"], v)
+                if r is not None and bool(r) != bool(g["holds"]):
+                    bad.append((v, g))
+                    break
+        rows.append((not bad, f"kio.serial.writers:{name}", f"{name}: {len(d.get('guards') or [])} guard(s) on the value",
+                     "; ".join(f"the writer raises {'/'.join(g.get('else') or ['?'])} for {v!r}, a duration the sibling reader returns (the reader "
+                               f"builds timedelta(milliseconds=n) for every n that fits a timedelta): decode-then-encode fails for it" for v, g in bad),
+                     "src/kio/serial/writers.py", f.node.lineno))
+    return rows
